@@ -33,7 +33,20 @@ CHECKS['C07'] = {
     'technique': 'bounded exhaustive exploration (configuration x program space) against a reference model',
 }
 
+CHECKS['C08'] = {
+    'text': 'For every registered functional, every derived functional (depth <= 2), separable sums, '
+            'sums, infimal convolutions and quadratic forms: Fenchel-Young on all pairs of V^n x V^n, '
+            'equality at the gradient on all admissible points, biconjugate values, Moreau '
+            'decomposition for sigma in {1/2, 2}, agreement of f* with the documented closed form and '
+            'with the lattice supremum; Huber* against the conjugate of the infimal convolution '
+            '(two routes to one functional).',
+    'note': 'small scope (V^n, n <= 3 full alphabet); infinite values compared outside a 1e-9 band '
+            'around constraint boundaries; values that odl cannot evaluate (NotImplementedError) '
+            'are counted as skipped',
+    'technique': 'bounded exhaustive exploration (configuration x program space), algebraic and reference-model oracles',
+}
+
 _PENDING = 'check under construction in this session; not claimed until it runs quietly on the unchanged tree'
 NOT_APPLICABLE = dict((p, _PENDING) for p in
-                      ['C01', 'C02', 'C03', 'C04', 'C05', 'C06', 'C08', 'C09', 'C11', 'C12',
+                      ['C01', 'C02', 'C03', 'C04', 'C05', 'C06', 'C09', 'C11', 'C12',
                        'C13', 'C14', 'C15', 'C16', 'C17', 'C18', 'C19', 'C20'])
